@@ -87,7 +87,11 @@ func genHdrForm(r *wire.Rng) string {
 	case 2, 3:
 		return "istio"
 	case 4:
-		return "two"
+		return "bb"
+	case 5:
+		return "two" // a second, invalid bearer token in front of the valid one
+	case 6:
+		return "two2"
 	}
 	return "bearer"
 }
@@ -159,7 +163,7 @@ func genAuthSpec(r *wire.Rng, kind int, tr string, asciiOnly bool) []string {
 			peer = wire.Enc(peer)
 		}
 		hdrs := "-"
-		parsed := "err"
+		parsed := "-"
 		if r.Chance(9, 10) {
 			h := []string{wire.Pick(r, xfccHeaders)}
 			if r.Chance(1, 6) {
@@ -169,7 +173,7 @@ func genAuthSpec(r *wire.Rng, kind int, tr string, asciiOnly bool) []string {
 			if h[0] == "" && len(h) == 1 {
 				hdrs = "~"
 			}
-			parsed = parsedXFCC(h[0])
+			parsed = parsedXFCCAll(h)
 		}
 		return []string{"xfcc", tr, wire.EncList(wire.Pick(r, xfccCIDRs)), peer, hdrs, parsed}
 	default:
@@ -255,14 +259,16 @@ func genAuthn(seed uint64, n int, outp string) {
 
 func sanitizeTD(td string) string { return strings.ReplaceAll(td, "@", ".") }
 
-// tokenPresented: a bearer token was presented in the way the transport defines.
+// tokenPresented: the credential that counts - the FIRST bearer token presented in the way the transport
+// defines (gRPC: first `Bearer ` value; HTTP: the first value, `Bearer ` or `Istio `) - is the line's token
+// (the one the verifier / the API server accepts), not the second, invalid one.
 func tokenPresented(tr, form string) bool {
 	switch form {
-	case "bearer":
+	case "bearer", "two2":
 		return true
 	case "istio":
 		return tr == "http"
-	case "two":
+	case "bb":
 		return tr == "grpc"
 	}
 	return false
